@@ -170,6 +170,7 @@ def run_custom(rep, prop, only=None, harness_timeout=900, r=None):
 
 
 VERUS_TRUSTED = {
+    "nest": ["abstract machine of verus/lemmas/nesting.rs (enter/leave/other) as the composition of the single-step contracts; no code is extracted in this unit"],
     "div": ["extraction rules R1-R4 (visibility, anyhow->Error, with_context/log dropped); enums CCR/StateType extracted with #[derive(Clone, Copy)] added",
             "external_body: Cpu::calc_state (cost seam; contract: result <= 14*count, internal cycles cost exactly count - what C19 proves of the real function)",
             "the contracts of divxu_b/divxu_w state the manual's definition with the mathematical / and % of the operands named by the 4-bit fields"],
